@@ -468,10 +468,65 @@ def cuda_launch(I, launch, args, kwargs, st, n):
                         facts["guards"].append(B)
                         cnt = B
                         continue
+                    # a data-dependent guard inside the kernel: decide it for every admissible segment start 0 <= s <= N - L
+                    # (the host-side bounds check dominates every launch, C02.R6) by evaluating it at the two extreme starts
+                    verdict = _admissible_truth(cond, tau)
+                    if verdict is not None:
+                        if verdict == "mixed":
+                            val = Mismatch(f"the kernel stores this statistic only {'when' if pol else 'unless'} [{cond.text}], which changes over the admissible segment starts "
+                                           "0 <= s <= N-L: e.g. the last admissible segment (s = N-L, ending exactly at the record end) takes the other branch")
+                            continue
+                        if verdict == pol: continue            # holds for every admissible start: the store is unconditional
+                        val = None; break                      # never happens for an admissible start: the store is dead
                 rest.append(ex)
+            if val is None:
+                a.stores[i] = ("dead",)
+                continue
             a.stores[i] = (((tau, cnt),) + tuple(binders), sidx, val) + tuple(rest)
+        a.stores[:] = [r_ for r_ in a.stores if r_ != ("dead",)]
     st.events.append(("cuda-launch", facts, n))
     I.call_log.append((fn.key, args, kwargs, n))
+    return None
+
+
+def _admissible_truth(cond, tau):
+    """truth of a kernel-internal guard over all admissible starts: True / False if it is the same at s = 0 and s = N - L (affine in s),
+    'mixed' if it differs, None if it is not a condition on the segment start."""
+    d = getattr(cond, "lt", None)
+    if d is None: return None
+    sat = [a for a in d.all_atoms() if a.tag == "idx" and len(a.args) == 1 and isinstance(a.args[0], X) and a.args[0].eq(X.var(tau))]
+    if len(sat) != 1: return None
+    s_at = sat[0]
+    shapes = [a for a in d.all_atoms() if a.tag == "v" and a.name.endswith(".shape0") and not a.name.startswith(s_at.name + ".")]
+    KIND["M_adm"] = "pos"
+    M = X.var("M_adm"); L = X.var("L")
+    out = []
+    for sval in (X.const(0), M):
+        try:
+            def is_len(a):
+                if a in shapes: return True
+                # min(N1, N2): the common admissible length of two records
+                return a.tag == "fn" and a.name in ("min", "max") and all(isinstance(g, X) and len(list(g.all_atoms())) >= 1 and all(b in shapes for b in g.atoms()) and g.eq(X.atom(list(g.atoms())[0])) for g in a.args)
+            e = d.map_atoms(lambda a: (sval if a == s_at else (M + L) if is_len(a) else X.atom(a)))
+        except Exception:
+            return None
+        # min(N1, N2) of two records of the same admissible length
+        e2 = e
+        sg = _sign_simple(e2)
+        if sg is None: return None
+        out.append(sg < 0)
+    return out[0] if out[0] == out[1] else "mixed"
+
+
+def _sign_simple(x):
+    c = x.constval()
+    if c is not None and c.im == 0: return (c.re > 0) - (c.re < 0)
+    n, dn = x.rational()
+    if len(n.t) == 1 and len(dn.t) == 1:
+        (m, cf), = n.t.items(); (m2, cf2), = dn.t.items()
+        if cf.im == 0 and cf2.im == 0 and all(a.kind == "pos" for a, e in list(m) + list(m2)):
+            sgn = (cf.re > 0) - (cf.re < 0); sgn2 = (cf2.re > 0) - (cf2.re < 0)
+            return sgn * sgn2
     return None
 
 
